@@ -232,7 +232,7 @@ class Gen:
             return ["-", self.arr_expr(sc, d - 1, length), self.arr_atom(sc, same)]
         if r < 0.8:
             return self.bcall("<builtin>elementwise_abs", [["var", rng.choice(same)]])
-        if r < 0.92:
+        if r < 0.92 and not (length == 4 and r >= 0.85):
             return self.ucall_vec(sc, d, rng.choice(same))
         if length == 4 and r < 0.97:
             # 2x2 matrices stored column-major in 4-element arrays
@@ -257,9 +257,13 @@ class Gen:
         rng = self.rng
         names = BUILTIN_ARGS[fname]
         npos = len(args) if rng.random() < 0.6 else rng.randint(0, len(args))
+        if len(args) >= 2 and rng.random() < 0.3:
+            npos = 0        # everything by keyword: 'matmul(b=v, a=u, b_cols=2, a_cols=2)'
         pos = args[:npos]
         kwitems = list(zip(names[npos:], args[npos:]))
         rng.shuffle(kwitems)
+        if len(kwitems) >= 2 and rng.random() < 0.5:
+            kwitems = kwitems[::-1] if kwitems == list(zip(names[npos:], args[npos:])) else kwitems
         return ["call", fname, pos, dict(kwitems)]
 
     def func(self, kind, nargs=None, nres=1):
@@ -1163,7 +1167,16 @@ def build(script, obs=None):
                 return out
             body = named(body)
         with CodeBuilder("step" if script.get("shared_ids") else ph["name"]) as cb:
-            replay_ops(cb, body, obs, errs, {})
+            if script.get("snapshots") and len(body) >= 2:
+                # the statements written so far are turned into a phase midway (a short and a long variant of a
+                # phase that share a prefix are written like this); the snapshot itself is not used
+                amap = {}
+                h = max(1, len(body) // 2)
+                replay_ops(cb, body[:h], obs, errs, amap)
+                cb.as_execution_phase(ph["next"])
+                replay_ops(cb, body[h:], obs, errs, amap)
+            else:
+                replay_ops(cb, body, obs, errs, {})
             if obs is not None:
                 obs.aliases = getattr(obs, "aliases", {})
         if script.get("shared_ids"):
